@@ -195,13 +195,7 @@ func (i *interpreter) symIndex(idx value, n int, why string) int {
 		return int(asInt64(idx))
 	}
 	tt := i.ps.tt
-	w := s.t.sort.w
-	var oob *term
-	if kindSigned(s.k) {
-		oob = tt.or(tt.mk("bvslt", boolSort, s.t, tt.mkBV(0, w)), tt.mk("bvsge", boolSort, s.t, tt.mkBV(uint64(n), w)))
-	} else {
-		oob = tt.mk("bvuge", boolSort, s.t, tt.mkBV(uint64(n), w))
-	}
+	oob := tt.oobTerm(s, n)
 	if i.decide(oob) {
 		panic(runtimeErrorText(fmt.Sprintf("index out of range [symbolic] with length %d", n)))
 	}
@@ -215,12 +209,7 @@ func (i *interpreter) selectElem(elems []value, idx sym, k types.BasicKind) valu
 	tt := i.ps.tt
 	n := len(elems)
 	w := idx.t.sort.w
-	var oob *term
-	if kindSigned(idx.k) {
-		oob = tt.or(tt.mk("bvslt", boolSort, idx.t, tt.mkBV(0, w)), tt.mk("bvsge", boolSort, idx.t, tt.mkBV(uint64(n), w)))
-	} else {
-		oob = tt.mk("bvuge", boolSort, idx.t, tt.mkBV(uint64(n), w))
-	}
+	oob := tt.oobTerm(idx, n)
 	if i.decide(oob) {
 		panic(runtimeErrorText(fmt.Sprintf("index out of range [symbolic] with length %d", n)))
 	}
@@ -357,4 +346,20 @@ func (i *interpreter) encodeRune(r value) []value {
 	// non-ASCII symbolic rune: concretise
 	v := i.concretize(t, "rune to encode")
 	return strBytes(string(rune(int32(uint32(v)))))
+}
+
+// oobTerm is "idx is not a valid index into a sequence of length n".
+func (tt *termTable) oobTerm(idx sym, n int) *term {
+	w := idx.t.sort.w
+	if kindSigned(idx.k) {
+		neg := tt.mk("bvslt", boolSort, idx.t, tt.mkBV(0, w))
+		if w < 64 && uint64(n) >= uint64(1)<<uint(w-1) {
+			return neg // every non-negative value of this width is below n
+		}
+		return tt.or(neg, tt.mk("bvsge", boolSort, idx.t, tt.mkBV(uint64(n), w)))
+	}
+	if w < 64 && uint64(n) >= uint64(1)<<uint(w) {
+		return tt.mkBool(false)
+	}
+	return tt.mk("bvuge", boolSort, idx.t, tt.mkBV(uint64(n), w))
 }
